@@ -1,9 +1,11 @@
 """C08 — laser-log synchronisation: pewlib.io.laser.read_nwi_laser_log + sync_data_nwi_laser_log against
-PewModel/Sync.lean.  The Lean specification `render` writes the abstract log rows, the sample times and
-the delay of a rastered acquisition and `truth` is its ground-truth image; the Lean mechanism `sync` is
-run on the rendered log.  Python only formats the rows as a real NWI CSV file, builds the numpy signal,
-runs pewlib and canonicalises.  Theorem `sync_render` (PewTheorems/C08.lean) proves model = spec on every
-acquisition with `truthHyp` (reported here as `hyp`); the comparison below ties the implementation to both."""
+PewModel/Sync.lean.  The Lean specification `render` writes the abstract log rows, the sample times and the delay of a
+rastered acquisition, `renderLog` writes those rows as the text of an NWI log (time stamps with the date, four-decimal
+coordinates, comma-separated fields) and `truth` is the ground-truth image; the Lean mechanism reads the text back
+(`parseLog`) and runs `sync` on it.  Python only puts the lines into a file (line terminator, BOM), builds the numpy
+signal, runs pewlib and canonicalises.  Theorems `sync_render`, `sync_render_squeeze_keeps`, `sync_render_text`
+(PewTheorems/C08.lean) prove model = spec on every acquisition with `truthHyp` and `textHyp` (reported here as `hyp`);
+the comparison below ties the implementation to both.  A case may be a HISTORY of calls in one process (see `generate`)."""
 import copy
 import datetime
 import logging
@@ -18,7 +20,7 @@ from harness import core, gen_nwi
 from harness.core import Prop, outcome, unrat
 
 NAN_TOK = core.tok(float("nan"))
-ELEMENTS = ["Ho165", "P31", "Eu153"]
+ELEMENTS = ["Ho165", "P31", "Eu153", "Gd157"]
 DIRS = ["lr", "rl", "tb", "bt"]
 # spot sizes in 1e-4 um: 0.1, 1.1, 12.5, 40, 1, 0.3333, 5.05, 100.25, 2.5
 SPOTS = [1000, 11000, 125000, 400000, 10000, 3333, 50500, 1002500, 25000]
@@ -69,8 +71,46 @@ def valid_cuts(acq, sel):
     return sorted(set(cuts))
 
 
+def line_positions(acq):
+    """(pattern index, line index, position of the line's first pixel sample in the acquisition, pattern)"""
+    out, pos = [], 0
+    for pi, li, n in segments(acq):
+        if pi is not None:
+            out.append((pi, li, pos, acq["patterns"][pi]))
+        pos += n
+    return out
+
+
+def plan_samples(acq, entry):
+    """acquisition sample indices named by one entry of a NaN plan.  `line`: every pixel of line idx (mod the number of
+    lines) of pattern `pat` (None = of every pattern) - a whole image row (horizontal scans) or column; `along`: the
+    pixel at position idx (mod the line length, counted in the pattern's own direction, so the same image column / row
+    in the returning lines of a serpentine scan) of every line; `mod`: every sample k with k % mod == rem"""
+    what, idx = entry["what"], entry.get("idx", 0)
+    if what == "mod":
+        m = max(1, entry.get("mod", 1))
+        return {k for k in range(total_samples(acq)) if k % m == entry.get("rem", 0) % m}
+    npat = len(acq["patterns"])
+    pat = None if entry.get("pat") is None else entry["pat"] % npat
+    out = set()
+    for pi, li, pos, p in line_positions(acq):
+        if pat is not None and pi != pat:
+            continue
+        if what == "line":
+            if li == idx % len(p["lines"]):
+                out.update(range(pos, pos + p["npix"]))
+        elif what == "along":
+            c = idx % p["npix"]
+            out.add(pos + (p["npix"] - 1 - c if (p["serp"] and li % 2 == 1) else c))
+        else:
+            raise core.InternalError(f"bad nan plan entry {entry}")
+    return out
+
+
 def sample_values(case, n):
-    """deterministic element values of the n samples (from the case's own value seed)"""
+    """deterministic element values of the n samples (from the case's own value seed).  NaN samples: `nan_mod` (every
+    element of every nan_mod-th sample), a sprinkle in single elements, and `nan_plan`: whole lines / pixel positions /
+    strides that are NaN in the listed elements only (a detector that dropped out for one element)"""
     rng = random.Random(case["vseed"])
     names = ELEMENTS[: case["nelem"]]
     data = np.empty(n, dtype=[(nm, np.float64) for nm in names])
@@ -84,14 +124,123 @@ def sample_values(case, n):
                 r = rng.random()
                 v = math.nan if (r < 0.03 and len(names) > 1 and nm != names[0]) else \
                     float(rng.randint(0, 10 ** 6)) / 8 if r < 0.6 else rng.random() * 1e4
+                if case.get("special") and 0.6 <= r < 0.68:    # numbers that are not NaN: infinities, -0.0, tiny, huge
+                    v = SPECIALS[int((r - 0.6) * 1000) % len(SPECIALS)]
             data[nm][k] = v
+    skip = case["acq"]["skip"]
+    for entry in case.get("nan_plan", []):
+        elems = sorted({e % len(names) for e in entry["elems"]})
+        for a in plan_samples(case["acq"], entry):
+            if 0 <= a - skip < n:
+                for e in elems:
+                    data[names[e]][a - skip] = math.nan
     return data
 
 
 CLOCKS = ["array", "array2d", "scalar", "npscalar"]
 LAYOUTS = ["flat", "row", "rows", "col", "fortran", "strided"]
-DTYPES = ["f8", "f4", "plain"]
-DEFAULTS = {"clock": "array", "layout": "flat", "layout_k": 0, "dtype": "f8", "selform": "plain", "precall": False}
+DTYPES = ["f8", "f4", "plain", "mixed", "be"]
+SELFORMS = ["plain", "numpy", "tuple", "np32", "np0d"]
+VIAS = ["path", "pathobj", "array", "arrayview"]
+DEFAULTS = {"clock": "array", "layout": "flat", "layout_k": 0, "dtype": "f8", "selform": "plain", "precall": False,
+            "delayform": "float"}
+TEXT_DEFAULT = {"eol": "lf", "bom": False, "final_eol": True}
+
+# wall-clock instants an acquisition may run across: the stamps of the log carry the date
+BOUNDS = {"midnight": (2024, 7, 18), "month-end": (2024, 5, 1), "month-end-30": (2024, 7, 1), "year-end": (2025, 1, 1),
+          "feb28-29-leap": (2024, 2, 29), "feb29-mar1": (2024, 3, 1), "feb28-mar1": (2025, 3, 1),
+          "noon": (2024, 7, 17, 12), "hour": (2024, 7, 17, 14)}
+DATE_MODES = ["in-line", "between-lines", "at-on", "at-off", "on-999", "off-999", "first-on-999"]
+POISON = -12345.0
+SPECIALS = [math.inf, -math.inf, -0.0, 0.0, 5e-324, 1e30, -1e30, 1.0]
+
+
+MAX_CANVAS = 250000
+
+
+def canvas_estimate(acq, sel):
+    """upper bound of the number of pixels of the image: bounding box of the selected rasters in units of the first
+    selected pattern's spot size"""
+    ps = [acq["patterns"][i] for i in selected(acq, sel)]
+    if not ps or ps[0]["sxu"] <= 0 or ps[0]["syu"] <= 0:
+        return 0
+    ext = [(p["X"], p["X"] + (max(p["npix"], len(p["lines"])) + 1) * p["sxu"],
+            p["Y"], p["Y"] + (max(p["npix"], len(p["lines"])) + 1) * p["syu"]) for p in ps]
+    w = (max(e[1] for e in ext) - min(e[0] for e in ext)) // ps[0]["sxu"] + 2
+    h = (max(e[3] for e in ext) - min(e[2] for e in ext)) // ps[0]["syu"] + 2
+    return w * h
+
+
+def selected_lines(rows, selpat):
+    """(pattern index, On time, Off time) in ms of laser clock for every line of the selected patterns, in log order"""
+    out, pi = [], -1
+    for i, r in enumerate(rows):
+        if r["seq"] != -1:
+            pi += 1
+        if r["on"] and pi in selpat and i + 1 < len(rows):
+            out.append((pi, r["time"], rows[i + 1]["time"]))
+    return out
+
+
+def base_time(case, rows, selpat):
+    """wall-clock time of laser clock 0.  A `date` plan puts a boundary (midnight, a month's / year's end, the leap day,
+    noon, a full hour) at a chosen place of the imported lines: inside line k, between lines k and k+1, exactly on an
+    On / Off row (stamp 00:00:00.000), or one millisecond after it (stamp 23:59:59.999)"""
+    plan = case.get("date")
+    b = case["base"]
+    plain = datetime.datetime(*b[:6], b[6] * 1000)
+    lines = selected_lines(rows, selpat)
+    if plan is None or not lines:
+        return plain
+    if plan["kind"] not in BOUNDS or plan["mode"] not in DATE_MODES:
+        raise core.InternalError(f"bad date plan {plan}")
+    k, frac, mode = plan["k"] % len(lines), Fraction(plan["frac"] % 8, 8), plan["mode"]
+    _, on, off = lines[k]
+    if mode == "between-lines" and k + 1 < len(lines):
+        nxt = lines[k + 1][1]
+        at = min(nxt, off + 1 + int(frac * (nxt - off))) if nxt > off else nxt
+    elif mode in ("in-line", "between-lines"):
+        at = on + 1 + int(frac * (off - on))
+    elif mode == "first-on-999":
+        at = lines[0][1] + 1
+    else:
+        at = {"at-on": on, "at-off": off, "on-999": on + 1, "off-999": off + 1}[mode]
+    return datetime.datetime(*BOUNDS[plan["kind"]]) - datetime.timedelta(milliseconds=at)
+
+
+def date_features(case, rows, selpat, base):
+    """what the stamps of the imported lines really do (whether planned or by accident of the start time)"""
+    f = set()
+    lines = selected_lines(rows, selpat)
+    if not lines:
+        return f
+
+    def at(ms):
+        return base + datetime.timedelta(milliseconds=ms)
+
+    for i, (pi, on, off) in enumerate(lines):
+        if at(on).date() != at(off).date():
+            f.add("date:crossed-inside-a-line")
+        if i + 1 < len(lines) and at(off).date() != at(lines[i + 1][1]).date():
+            f.add("date:crossed-between-" + ("lines" if lines[i + 1][0] == pi else "patterns"))
+        for t in (at(on), at(off)):
+            if (t.hour, t.minute, t.second) == (0, 0, 0) and t.microsecond == 0:
+                f.add("date:stamp-00:00:00.000")
+            if (t.hour, t.minute, t.second) == (23, 59, 59):
+                f.add("date:stamp-23:59:59.9xx")
+    first, last = at(lines[0][1]), at(lines[-1][2])
+    if first.date() != last.date():
+        f.add("date:import-spans-two-dates")
+        f.add("date:" + ("year" if first.year != last.year else "month" if first.month != last.month else "day") + "-changes")
+        if (last - first).total_seconds() >= 86400:
+            f.add("date:import-longer-than-24h")
+        if (first.month, first.day) == (2, 29) or (last.month, last.day) == (2, 29):
+            f.add("date:leap-day")
+    else:
+        f.add("date:one-day")
+    if case.get("date") is not None:
+        f.add("boundary:" + case["date"]["kind"])
+    return f
 
 
 def opt(case, key):
@@ -130,42 +279,97 @@ def lay_out(flat, layout, shape, poison):
     return np.asfortranarray(arr) if layout == "fortran" else arr
 
 
+def edit_in_place(obj, undo, depth=0):
+    """what a caller may do with the objects a call returned: arrays are overwritten / rescaled in place, lists likewise,
+    containers are walked.  Every edit is recorded in `undo` (kind, object, previous content)"""
+    if depth > 4:
+        return
+    if isinstance(obj, np.ndarray):
+        if obj.size == 0 or not obj.flags.writeable:
+            return
+        undo.append(("array", obj, obj.copy()))
+        if obj.dtype.names is not None:
+            for nm in obj.dtype.names:
+                if obj.dtype[nm].kind == "f":
+                    obj[nm][...] = POISON
+        elif obj.dtype.kind == "f":
+            if obj.ndim >= 2:
+                obj[...] = POISON
+            else:
+                obj *= 2.0
+        elif obj.dtype.kind in "iu":
+            obj *= 2
+    elif isinstance(obj, dict):
+        for v in list(obj.values()):
+            edit_in_place(v, undo, depth + 1)
+    elif isinstance(obj, (list, tuple)):
+        if isinstance(obj, list):
+            undo.append(("list", obj, list(obj)))
+            for i, v in enumerate(obj):
+                if isinstance(v, (int, float)) and not isinstance(v, bool):
+                    obj[i] = v * 2
+        for v in obj:
+            if isinstance(v, (np.ndarray, dict, list, tuple)):
+                edit_in_place(v, undo, depth + 1)
+
+
 class C08(Prop):
     id = "C08"
     anchored = ["src/pewlib/io/laser.py"]
     cases = {"quick": 250, "thorough": 6000}
     rule = ("rastered acquisitions rendered by the Lean specification: 1-3 logged patterns, each one of the 8 scan patterns "
-            "(4 directions x uni/serpentine), 1..6 lines of 1..9 pixels, four-decimal stage origins (zero, negative, ~8e4 um), "
-            "spot sizes 0.1/1.1/12.5/40/random four-decimal in square, rectangular and circular notation, laser-off gaps "
-            "(0 ms .. s) with and without off samples, lead-in/late start/early end of the signal (delay of either sign), "
-            "stage-move rows, selection None/int/list (plain or numpy) at any position, squeeze on/off, 1-3 elements, NaN samples; "
-            "the signal handed over as (n,), (1,n), (k,n/k), (n,1), Fortran-ordered or strided array of float64/float32 records or "
-            "plain floats, its clock as stamps (1-d or the data's shape) or - for signals sampled at a constant interval - as the "
-            "acquisition time per sample (float / np.float64); log as str, Path or array; optionally after an earlier call on the "
-            "same objects; "
-            "written as a real NWI CSV, read with read_nwi_laser_log and synchronised with sync_data_nwi_laser_log; "
+            "(4 directions x uni/serpentine), 1..6 lines of 1..9 pixels (2 % far larger: 15-30 lines of 20-50 pixels), four-decimal "
+            "stage origins (zero, negative, ~8e4 um), spot sizes 0.1/1.1/12.5/40/random four-decimal in square, rectangular and "
+            "circular notation, laser-off gaps (0 ms .. 25 h) with and without off samples, lead-in/late start/early end of the "
+            "signal (delay of either sign, also longer than a line), stage-move rows, selection None/int/list/tuple/numpy array "
+            "(int64, int32, 0-d) at any position, squeeze on/off, 1-4 elements; "
+            "the log text is written by the Lean specification (renderLog) with the wall-clock date chosen so that 30 % of the "
+            "runs cross midnight, a month's / year's end, the leap day, noon or a full hour inside a line, between two lines or "
+            "patterns, with rows stamped 00:00:00.000 / 23:59:59.999; LF or CRLF, with / without BOM and final line terminator; "
+            "NaN samples in all elements (stride) and element-wise NaN plans (a whole line, one pixel position of every line, a "
+            "stride NaN in the first / a middle / the last / all but one / all elements), infinities, -0.0, tiny and huge values; "
+            "the signal handed over as (n,), (1,n), (k,n/k), (n,1), Fortran-ordered or strided array of float64 / float32 / mixed / "
+            "big-endian records or plain floats, its clock as stamps (1-d or the data's shape, from 0 or epoch seconds) or - for "
+            "signals sampled at a constant interval - as the acquisition time per sample (float / np.float64); delay as float or "
+            "np.float64; log as str, Path, array or strided view of an array; optionally after an unjudged earlier call on the same "
+            "objects; 25 % of the cases are HISTORIES of two or three judged synchronisations in one process (same objects with "
+            "another selection / another log with the same spot size string / unrelated, all read from one path), the caller "
+            "editing every mutable object each call returned (parameter arrays, the image) in place before the next; "
+            "read with read_nwi_laser_log and synchronised with sync_data_nwi_laser_log; "
             "samples sit strictly inside dwell/gap slots; non-trivial = every case (each renders at least one On/Off pair); "
             "distinct by canonical case hash")
-    trusted = ["np.genfromtxt parses the CSV columns (datetime64[ms], int with -1 for blanks, float, U-strings) as documented; "
+    trusted = ["np.genfromtxt splits the file into lines and the lines into comma-separated fields and converts the selected columns "
+               "(ISO stamp -> datetime64[ms], int with -1 for blanks, float, U-strings cut to their width) as the Lean reader "
+               "model parseLine says (compared on every case through the result of the synchronisation); "
                "np.searchsorted on a sorted array returns the number of entries below the value",
                "float evaluation of (x - origin)/spot for four-decimal coordinates is within 1e-9 of the exact quotient "
                "(theorem pixel_index_robust covers any perturbation below 5e-7); float sample/event times differ from the "
-               "exact rationals by far less than the generated margin (>= 0.1 ms) between a sample and a laser event"]
+               "exact rationals by far less than the generated margin (>= 0.1 ms) between a sample and a laser event",
+               "Python's datetime arithmetic places the chosen boundary instant (the harness's writer must reproduce the Lean "
+               "specification's text line by line, else the run stops with an internal error)"]
     assumptions = ["ground truth is demanded only where the property's text defines it: one sample per pixel; every imported line "
                    "is recorded completely, not at all, or from some pixel to its end (late start of the signal = positive "
                    "delay); signals that stop in the middle of a line are not generated; selected patterns share one spot size and pixel grid "
-                   "and do not overlap; other cases are counted as undetermined",
+                   "and do not overlap; the log lies between 1970 and the year 10000 and no spot size string is longer than the 16 "
+                   "characters the reader keeps (textHyp); other cases are counted as undetermined",
                    "without squeeze the result is compared as the set of non-NaN pixels (row, column, element values) from "
-                   "the reported origin; the NaN margin of the canvas is compared against the model only"]
+                   "the reported origin; the NaN margin of the canvas is compared against the model only",
+                   "a pixel whose sample is NaN in every element cannot be told from an unvisited one: with squeeze its row / column "
+                   "goes when nothing else holds data there (specification squeezeSpec); NaN in some elements only never removes anything",
+                   "argument mutation is not an observation point: before every call the signal, the stamps and a log array are "
+                   "restored to the modelled input; state kept outside the arguments (caches, reused buffers, objects shared with "
+                   "what a call returned) is what a history exposes; the caller's edits are undone at the end of a case",
+                   "selections whose rasters would need an image of more than 250000 pixels (patterns with unrelated spot sizes "
+                   "selected together) are not evaluated"]
 
     # ------------------------------------------------------------------ generation
-    def gen_pattern(self, rng, seq, sxu, syu, circular, X, Y):
-        nlines = rng.choice([1, 1, 2, 2, 3, 3, 4, 5, 6])
-        npix = rng.choice([1, 1, 2, 2, 3, 4, 5, 7, 9])
+    def gen_pattern(self, rng, seq, sxu, syu, circular, X, Y, big=False):
+        nlines = rng.choice([1, 1, 2, 2, 3, 3, 4, 5, 6]) if not big else rng.randint(15, 30)
+        npix = rng.choice([1, 1, 2, 2, 3, 4, 5, 7, 9]) if not big else rng.randint(20, 50)
         gapkind = rng.choice(["zero", "small", "mixed", "mixed", "long"])
         lines = []
         for _ in range(nlines):
-            gap = {"zero": 0, "small": rng.choice([1, 2, 5]), "long": rng.choice([1000, 2500, 60000])}.get(
+            gap = {"zero": 0, "small": rng.choice([1, 2, 5]), "long": rng.choice([1000, 2500, 60000, 86400000, 90000001])}.get(
                 gapkind, rng.choice([0, 1, 7, 50, 300, 1000]))
             lines.append({"gap": gap, "gap_samples": rng.choice([0, 0, 1, 2, 3]) if gap > 0 else 0,
                           "moves": rng.choice([0, 1, 2, 2])})
@@ -191,10 +395,36 @@ class C08(Prop):
         return rng.randint(10 ** 7, 10 ** 9)                   # 1e3 .. 1e5 um with four decimals
 
     def generate(self, rng, tier):
+        case = self.generate_one(rng, tier)
+        # HISTORY: one or two earlier synchronisations in the same process - of the same log and signal objects with
+        # another selection, of another acquisition logged with the same spot size string, or of an unrelated one.
+        # After each call the caller edits every mutable object that call returned (parameter arrays, the image) in
+        # place.  Each call is judged against the ground truth of its own inputs.
+        if rng.random() < 0.25:
+            p0 = case["acq"]["patterns"][selected(case["acq"], case["sel"])[0]]
+            hist = []
+            for _ in range(rng.choice([1, 1, 2])):
+                kind = rng.choice(["same", "same", "spot", "spot", "diff"])
+                if kind == "same":
+                    h = copy.deepcopy(case)
+                    # another selection among the patterns that share the pixel grid (the others may lie anywhere)
+                    seqs = [h["acq"]["patterns"][i]["seq"] for i in selected(h["acq"], h["sel"])]
+                    h["sel"] = rng.choice([seqs[0], [seqs[-1]], seqs, list(reversed(seqs)), h["sel"]])
+                    h["squeeze"] = rng.random() < 0.5
+                    h["precall"] = False
+                elif kind == "spot":
+                    h = self.generate_one(rng, tier, spot=(p0["sxu"], p0["syu"], p0["circular"]))
+                else:
+                    h = self.generate_one(rng, tier)
+                hist.append(h)
+            case["history"] = hist
+        return case
+
+    def generate_one(self, rng, tier, spot=None):
         npat = rng.choice([1, 1, 1, 2, 2, 3])
-        sxu, syu, circ = self.gen_spot(rng)
+        sxu, syu, circ = self.gen_spot(rng) if spot is None else spot
         X0, Y0 = self.gen_origin(rng), self.gen_origin(rng)
-        seqs, s = [], rng.randint(1, 4)
+        seqs, s = [], rng.choice([rng.randint(1, 4), rng.randint(1, 4), rng.randint(5, 300)])
         for _ in range(npat):
             seqs.append(s)
             s += rng.randint(1, 3)
@@ -224,7 +454,8 @@ class C08(Prop):
             cx += 12 + rng.randint(0, 3)
         for k in range(npat):
             if k in selidx:
-                p = self.gen_pattern(rng, seqs[k], sxu, syu, circ, X0 + slots[k] * sxu, Y0 + rng.randint(0, 3) * syu)
+                p = self.gen_pattern(rng, seqs[k], sxu, syu, circ, X0 + slots[k] * sxu, Y0 + rng.randint(0, 3) * syu,
+                                     big=(npat == 1 and rng.random() < 0.02))
             else:
                 a, b, c = self.gen_spot(rng) if rng.random() < 0.6 else (sxu, syu, circ)
                 p = self.gen_pattern(rng, seqs[k], a, b, c, X0 + rng.randint(-40, 40) * 12345, Y0 + rng.randint(-40, 40) * 12345)
@@ -234,11 +465,12 @@ class C08(Prop):
                "tail_gap": rng.choice([0, 0, 10, 500]), "tail_samples": rng.choice([0, 1, 3]),
                "skip": 0, "take": 0,
                "t0": core.rat(rng.choice([Fraction(0), Fraction(69, 4), Fraction(rng.randint(0, 10 ** 7), 1000),
-                                          Fraction(rng.randint(0, 10 ** 9), 10 ** 6)]))}
-        # lead-in before the first firing: a gap on the very first line
+                                          Fraction(rng.randint(0, 10 ** 9), 10 ** 6),
+                                          Fraction(1721221978112 + rng.randint(0, 10 ** 9), 1000)]))}
+        # lead-in before the first firing: a gap on the very first line (a negative delay, possibly longer than a line)
         if rng.random() < 0.5:
             patterns[0]["lines"][0]["gap"] = rng.choice([3, 250, 1000, 20000])
-            patterns[0]["lines"][0]["gap_samples"] = rng.choice([1, 2, 5])
+            patterns[0]["lines"][0]["gap_samples"] = rng.choice([1, 2, 5, 12])
         # a signal sampled at a constant interval (the only kind a caller can describe by the acquisition time per
         # sample): one dwell time for all patterns, every laser-off gap a whole number of sample intervals
         uniform = rng.random() < 0.4
@@ -267,24 +499,57 @@ class C08(Prop):
         else:
             clock = rng.choice(["array", "array", "array2d"])
         extra = {"clock": clock, "layout": layout, "layout_k": rng.randrange(8),
-                 "dtype": rng.choice(["f8", "f8", "f8", "f4", "plain"]),
-                 "selform": rng.choice(["plain", "plain", "numpy"]), "precall": rng.random() < 0.15}
-        return {**extra, "acq": acq, "sel": sel, "squeeze": rng.random() < 0.5,
+                 "dtype": rng.choice(["f8", "f8", "f8", "f8", "f4", "f4", "plain", "plain", "mixed", "be"]),
+                 "selform": rng.choice(["plain", "plain", "numpy", "numpy", "tuple", "np32", "np0d"]), "precall": rng.random() < 0.15,
+                 "delayform": rng.choice(["float", "float", "np"])}
+        nelem = rng.choice([1, 2, 2, 3, 3, 4])
+        case = {**extra, "acq": acq, "sel": sel, "squeeze": rng.random() < 0.5,
                 "nan_mod": rng.choice([0, 0, 0, 0, 3, 4, 7, 1]) if rng.random() < 0.9 else 2, "nan_rem": 0,
-                "nelem": rng.choice([1, 2, 3]), "vseed": rng.randint(0, 2 ** 31),
+                "nelem": nelem, "vseed": rng.randint(0, 2 ** 31),
                 "base": [rng.choice([2024, 2025]), rng.randint(1, 12), rng.randint(1, 28), rng.choice([0, 11, 13, 23]),
                          rng.choice([0, 12, 59]), rng.choice([0, 58, 59]), rng.choice([0, 112, 999])],
-                "via": rng.choice(["path", "pathobj", "array", "array"])}
+                "via": rng.choice(["path", "pathobj", "array", "array", "arrayview"]),
+                "text": {"eol": rng.choice(["lf", "crlf", "crlf"]), "bom": rng.random() < 0.1, "final_eol": rng.random() < 0.85}}
+        if rng.random() < 0.2:
+            case["special"] = True
+        # the run crosses a date (or noon / a full hour) somewhere in the imported lines
+        if rng.random() < 0.3:
+            case["date"] = {"kind": rng.choice(["midnight"] * 4 + list(BOUNDS)), "mode": rng.choice(DATE_MODES),
+                            "k": rng.randrange(12), "frac": rng.randrange(8)}
+        # NaN samples that differ between the elements: a whole line / one pixel position of every line / a stride of
+        # samples is NaN in the first, a middle, the last, several or all elements
+        if rng.random() < 0.4:
+            case["nan_mod"] = rng.choice([0, 0, 0, case["nan_mod"]])
+            case["nan_plan"] = [self.gen_nan_entry(rng, nelem, npat) for _ in range(rng.choice([1, 1, 2, 3]))]
+        return case
+
+    def gen_nan_entry(self, rng, nelem, npat):
+        which = rng.choice(["first", "first", "last", "middle", "but-first", "but-last", "all"])
+        elems = {"first": [0], "last": [nelem - 1], "middle": [nelem // 2], "but-first": list(range(1, nelem)) or [0],
+                 "but-last": list(range(nelem - 1)) or [0], "all": list(range(nelem))}[which]
+        what = rng.choice(["line", "line", "line", "along", "along", "mod"])
+        e = {"elems": elems, "what": what, "idx": rng.randrange(12), "pat": None if rng.random() < 0.6 else rng.randrange(npat)}
+        if what == "mod":
+            e["mod"], e["rem"] = rng.choice([2, 3, 5]), rng.randrange(5)
+        return e
 
     def simple(self, d, serp, nlines, npix, X=0, Y=0, sxu=10000, syu=10000, circ=False, gap=10, gs=1, squeeze=False, sel=None,
-               skip=0, take=None, **extra):
-        p = {"seq": 1, "dir": d, "serp": serp, "X": X, "Y": Y, "sxu": sxu, "syu": syu, "circular": circ, "npix": npix,
+               skip=0, take=None, seq=1, **extra):
+        p = {"seq": seq, "dir": d, "serp": serp, "X": X, "Y": Y, "sxu": sxu, "syu": syu, "circular": circ, "npix": npix,
              "dwell": 10, "lines": [{"gap": gap, "gap_samples": gs if gap else 0, "moves": 2} for _ in range(nlines)]}
         acq = {"patterns": [p], "phase": core.rat(Fraction(1, 2)), "tail_gap": 10, "tail_samples": 1, "skip": skip, "take": 0,
                "t0": core.rat(0)}
         acq["take"] = (total_samples(acq) - skip) if take is None else take
         return {**DEFAULTS, "acq": acq, "sel": sel, "squeeze": squeeze, "nan_mod": 0, "nan_rem": 0, "nelem": 2, "vseed": 7,
                 "base": [2024, 7, 17, 13, 12, 58, 112], "via": "path", **extra}
+
+    def two_patterns(self, d1, d2, **extra):
+        """two logged patterns on one pixel grid (numbered 2 and 5), the second one 12 pixels further along x"""
+        a = self.simple(d1, True, 2, 3, seq=2, **extra)
+        b = self.simple(d2, False, 3, 2, seq=5, X=12 * 10000)
+        a["acq"]["patterns"].append(b["acq"]["patterns"][0])
+        a["acq"]["take"] = total_samples(a["acq"])
+        return a
 
     def targeted(self, tier):
         for d in DIRS:
@@ -310,101 +575,271 @@ class C08(Prop):
             for j, clock in enumerate(CLOCKS):
                 d = DIRS[(i + j) % 4]
                 yield self.simple(d, (i + j) % 2 == 1, 3, 4, gap=20, gs=2, layout=layout, clock=clock, layout_k=i + j,
-                                  dtype=DTYPES[(i + 2 * j) % 3], via=["path", "pathobj", "array"][(i + j) % 3],
+                                  dtype=DTYPES[(i + 2 * j) % 5], via=VIAS[(i + j) % 4], selform=SELFORMS[(i + j) % 5],
+                                  sel=[None, 1, [1], [9, 1]][(i + 2 * j) % 4], delayform=["float", "np"][j % 2],
                                   squeeze=(i % 2 == 0), precall=(j == i % 4))
+        # a raster far larger than the others (sizes above any small threshold)
+        yield self.simple("rl", True, 23, 41, gap=10, gs=1, squeeze=True, nelem=1)
         # a signal of a single sample, and a two-sample one, with the clock as a float
         yield self.simple("lr", False, 1, 1, gap=0, gs=0, take=1, clock="scalar", layout="row")
         yield self.simple("bt", False, 1, 2, gap=0, gs=0, take=2, clock="npscalar", layout="col", dtype="plain")
+        # the run crosses midnight / a month's or year's end / the leap day / noon / a full hour: inside a line, between
+        # two lines, between two patterns, with a row stamped 00:00:00.000 or 23:59:59.999
+        kinds = list(BOUNDS)
+        for i, mode in enumerate(DATE_MODES):
+            for j in range(3):
+                yield self.simple(DIRS[(i + j) % 4], j == 1, 3, 3, gap=[10, 0, 2500][j], squeeze=(i + j) % 2 == 0,
+                                  via=["path", "array", "pathobj"][(i + j) % 3], text={"eol": "crlf", "bom": False, "final_eol": True},
+                                  date={"kind": kinds[(3 * i + j) % len(kinds)] if j else "midnight", "mode": mode, "k": i + j,
+                                        "frac": 3 * i + j})
+        for i, kind in enumerate(kinds):
+            yield self.two_patterns(DIRS[i % 4], DIRS[(i + 1) % 4], sel=[None, 5, [2, 5]][i % 3],
+                                    date={"kind": kind, "mode": "between-lines", "k": 1, "frac": i},
+                                    via=["array", "path"][i % 2])
+        yield self.simple("lr", False, 2, 2, gap=86400000, gs=1, date={"kind": "midnight", "mode": "in-line", "k": 0, "frac": 4})
+        # text layer as the instrument writes it (CRLF) and its harmless variants
+        for i, (eol, bom, fin) in enumerate([("crlf", False, True), ("crlf", True, False), ("lf", True, True), ("lf", False, False)]):
+            yield self.simple(DIRS[i], i % 2 == 0, 2, 3, via=["path", "array"][i % 2], text={"eol": eol, "bom": bom, "final_eol": fin})
+        # NaN samples that differ between the elements: a whole line / a pixel position of every line NaN in one element
+        # only (first, middle, last), in all but one, in all; 1-4 elements; with and without squeeze
+        i = 0
+        for nelem in (1, 2, 3, 4):
+            for which in ([0], [nelem - 1], [nelem // 2], list(range(1, nelem)) or [0], list(range(nelem))):
+                for what in ("line", "along"):
+                    i += 1
+                    yield self.simple(DIRS[i % 4], i % 3 == 0, 3, 3, squeeze=i % 4 != 3, nelem=nelem, gap=[10, 0][i % 2],
+                                      dtype=["f8", "f4"][i % 5 == 0],
+                                      nan_plan=[{"elems": which, "what": what, "idx": i, "pat": None}])
+        yield self.simple("tb", True, 3, 3, squeeze=True, nelem=2, special=True, dtype="f4")
+        yield self.simple("lr", True, 4, 3, squeeze=True, nelem=3,
+                          nan_plan=[{"elems": [0], "what": "line", "idx": 1, "pat": None},
+                                    {"elems": [2], "what": "along", "idx": 0, "pat": None},
+                                    {"elems": [1], "what": "mod", "mod": 2, "rem": 1, "idx": 0, "pat": None}])
+        # a spot size string of 17 characters: replayed only once the finding is registered in known_findings.json
+        if any(k.get("id") == self.KNOWN_LONG_SPOT and k.get("kind") == "known" for k in core.load_known()):
+            yield self.simple("lr", False, 2, 3, sxu=10002500, syu=10002500)
+        # HISTORY: two or three synchronisations in one process; the caller edits what each call returned in place
+        a = self.simple("lr", False, 3, 4, sxu=400000, syu=400000)
+        b = self.simple("rl", True, 2, 5, sxu=400000, syu=400000, X=1205000, Y=-3102500, squeeze=True, via="array")
+        c = self.simple("tb", False, 2, 3, sxu=400000, syu=400000, circ=True, X=77, Y=5)
+        d = self.simple("bt", True, 3, 2, sxu=11000, syu=125000)
+        yield {**copy.deepcopy(b), "history": [a]}                                   # same spot string, another log
+        yield {**copy.deepcopy(a), "history": [copy.deepcopy(a)]}                    # the very same objects again
+        yield {**copy.deepcopy(c), "history": [c, copy.deepcopy(c)]}                 # circular notation, three calls
+        yield {**copy.deepcopy(d), "history": [a, b]}                                # unrelated
+        yield {**copy.deepcopy(a), "history": [d, b], "squeeze": True}
+        e = self.two_patterns("lr", "bt", sel=5, via="array")
+        yield {**copy.deepcopy(e), "history": [{**copy.deepcopy(e), "sel": [2]}, {**copy.deepcopy(e), "sel": None}]}
+        yield {**copy.deepcopy(e), "via": "path", "sel": [2, 5], "history": [{**copy.deepcopy(e), "via": "path", "sel": 2}]}
 
     # ------------------------------------------------------------------ evaluation
     def evaluate(self, case, ctx):
+        steps = [h for h in case.get("history", [])] + [case]
+        if any("history" in h for h in steps[:-1]):
+            raise core.InternalError("nested history")
+        lg = logging.getLogger("pewlib.io.laser")             # "flattening" / "multiple spot sizes" warnings: not observed
+        was_disabled, lg.disabled = lg.disabled, True
+        env = {"tmp": ctx.tmpdir(), "objects": {}, "logs": {}, "undo": []}
+        res = []
+        try:
+            for i, step in enumerate(steps):
+                r = self.one(step, ctx, env, i)
+                res.append(r)
+                if i + 1 < len(steps) and r.get("returned") is not None:
+                    # the caller works on what it got: every mutable object is edited in place
+                    for obj in r["returned"]:
+                        edit_in_place(obj, env["undo"])
+        finally:
+            # leave the process as a caller would who never touched the results: a case is judged on its own history only
+            for kind, obj, old in reversed(env["undo"]):
+                try:
+                    if kind == "array":
+                        obj[...] = old
+                    else:
+                        obj[:] = old
+                except Exception:
+                    pass
+            lg.disabled = was_disabled
+            ctx.cleanup()                                      # the synthetic logs are not needed any more
+        for r in res:
+            r.pop("returned", None)
+        det = [r for r in res if not r["undetermined"]]
+        feats = set(res[-1]["features"])
+        if len(res) > 1:
+            feats.add(f"history:calls:{len(res)}")
+            feats |= res[-1]["relation"]
+        if len(res) == 1:
+            r = res[0]
+            return outcome(r["impl"], r["model"], r["spec"], spec_ok=r["spec_ok"], model_ok=r["model_ok"],
+                           undetermined=r["undetermined"], hyp=r["hyp"], features=feats)
+        return outcome([r["impl"] for r in res], [r["model"] for r in res], [r["spec"] for r in res],
+                       spec_ok=all(r["spec_ok"] for r in det), model_ok=all(r["model_ok"] for r in det),
+                       undetermined=not det, hyp=all(r["hyp"] for r in res), features=feats if det else [])
+
+    def one(self, case, ctx, env, index):
+        """one judged synchronisation: returns impl / model / spec of this call and the objects it returned"""
         from pathlib import Path
 
         from pewlib.io import laser
 
+        skipres = {"impl": {}, "model": {}, "spec": {}, "spec_ok": True, "model_ok": True, "undetermined": True, "hyp": False,
+                   "features": set(), "relation": set(), "returned": None}
         acq, sel, squeeze = case["acq"], case["sel"], case["squeeze"]
         clock, layout, dtype = opt(case, "clock"), opt(case, "layout"), opt(case, "dtype")
-        if clock not in CLOCKS or layout not in LAYOUTS or dtype not in DTYPES:
+        text = {**TEXT_DEFAULT, **case.get("text", {})}
+        if clock not in CLOCKS or layout not in LAYOUTS or dtype not in DTYPES or opt(case, "selform") not in SELFORMS \
+                or text["eol"] not in ("lf", "crlf") or not 1 <= case["nelem"] <= len(ELEMENTS) or case["via"] not in VIAS:
             raise core.InternalError(f"bad case options {clock} {layout} {dtype}")
-        shape = layout_shape(layout, opt(case, "layout_k"), signal_count(acq))
+        if canvas_estimate(acq, sel) > MAX_CANVAS:
+            # patterns with unrelated spot sizes / positions selected together: no common pixel grid (outside the domain
+            # of the ground truth) and an image of millions of pixels - not evaluated
+            return {**skipres, "features": set()}
+        n = signal_count(acq)
+        shape = layout_shape(layout, opt(case, "layout_k"), n)
         scalar = clock in ("scalar", "npscalar")
-        rep = ctx.driver.call("c08.case", acq=acq, sel=sel, squeeze=squeeze, nan_mod=case["nan_mod"], nan_rem=case["nan_rem"],
+        # the values of the signal are the harness's; the Lean side is told which samples are NaN in every element
+        flat = sample_values(case, n)
+        if dtype in ("f4", "mixed", "be"):                     # float32 records, float64 / float32 fields mixed, big-endian
+            flat = flat.astype([(nm, {"f4": "<f4", "be": ">f8", "mixed": "<f4" if i % 2 == 0 else "<f8"}[dtype])
+                                for i, nm in enumerate(flat.dtype.names)])
+        names = flat.dtype.names if dtype != "plain" else flat.dtype.names[:1]
+        isnan = [[bool(np.isnan(flat[nm][k])) for nm in names] for k in range(n)]
+        allnan = [all(v) for v in isnan]
+        toks = [[core.tok(flat[nm][k]) for nm in names] for k in range(n)]
+        selpat = set(selected(acq, sel))
+        if case.get("date") is not None:                       # the date is placed relative to the rows of the log
+            r0 = ctx.driver.call("c08.rows", acq=acq, sel=sel)
+            base = base_time(case, r0["rows"], selpat) if r0["rendered"] else base_time(case, [], selpat)
+        else:
+            base = base_time(case, [], selpat)
+        base_ms = (base - datetime.datetime(1970, 1, 1)) // datetime.timedelta(milliseconds=1)
+        rep = ctx.driver.call("c08.case", acq=acq, sel=sel, squeeze=squeeze, base=base_ms,
+                              nan=[[k for k in range(n) if isnan[k][e]] for e in range(len(names))],
                               shape=shape, clock="interval" if scalar else "stamps")
         if not rep["rendered"]:
             # nothing to import (no On row in the selection, or an empty signal): outside the property
-            return outcome({}, {}, {}, undetermined=True, hyp=False, features=[])
+            return skipres
         if not rep["shape_ok"] or (scalar and rep["interval"] is None):
             # the signal was not sampled at a constant interval: no acquisition time per sample describes it
-            return outcome({}, {}, {}, undetermined=True, hyp=False, features=[])
+            return skipres
         rows = rep["rows"]
         rel = [unrat(t) for t in rep["times"]]
-        n = len(rel)
+        if len(rel) != n:
+            raise core.InternalError(f"signal of {len(rel)} samples rendered, {n} expected")
         delay = float(unrat(rep["delay"]))
-        flat = sample_values(case, n)
-        if dtype == "f4":
-            flat = flat.astype([(nm, np.float32) for nm in flat.dtype.names])
-        names = flat.dtype.names if dtype != "plain" else flat.dtype.names[:1]
-        allnan = [all(math.isnan(flat[nm][k]) for nm in names) for k in range(n)]
-        toks = [[core.tok(flat[nm][k]) for nm in names] for k in range(n)]
-        if dtype == "plain":                                   # a single element as a plain float array
-            flat = np.ascontiguousarray(flat[names[0]])
-        data = lay_out(flat, layout, shape, -1.0 if dtype == "plain" else tuple(-1.0 for _ in names))
-        if scalar:
-            dt = float(unrat(rep["interval"]))
-            times = dt if clock == "scalar" else np.float64(dt)
+        # the log is written by the Lean specification (`renderLog`); the harness's own writer must agree with it
+        lines = gen_nwi.format_lines(rows, base)
+        if lines[1:] != rep["lines"]:
+            raise core.InternalError("log text of the Lean specification differs from the harness writer: "
+                                     + repr([(a, b) for a, b in zip(lines[1:], rep["lines"]) if a != b][:2]))
+        lines = lines[:1] + rep["lines"]
+
+        # ---- the objects the caller holds: the same description gives the same objects within one history
+        okey = core.canon([acq, case["nelem"], case["vseed"], case["nan_mod"], case["nan_rem"], case.get("nan_plan", []),
+                           bool(case.get("special")),
+                           dtype, layout, opt(case, "layout_k"), clock])
+        relation = set()
+        if okey in env["objects"]:
+            data, times, keep = env["objects"][okey]
+            relation.add("history:same-signal-object")
         else:
-            tflat = np.array([float(t) for t in rel], dtype=np.float64)
-            if clock == "array2d":                             # stamps in the data's shape (a row when that is 1-d)
-                times = lay_out(tflat, layout if len(shape) == 2 else "row", shape if len(shape) == 2 else [1, n], -1.0)
+            if dtype == "plain":                               # a single element as a plain float array
+                flat = np.ascontiguousarray(flat[names[0]])
+            data = lay_out(flat, layout, shape, -1.0 if dtype == "plain" else tuple(-1.0 for _ in names))
+            if scalar:
+                dt = float(unrat(rep["interval"]))
+                times = dt if clock == "scalar" else np.float64(dt)
             else:
-                times = lay_out(tflat, "strided" if layout == "strided" else "flat", [n], -1.0)
+                tflat = np.array([float(t) for t in rel], dtype=np.float64)
+                if clock == "array2d":                         # stamps in the data's shape (a row when that is 1-d)
+                    times = lay_out(tflat, layout if len(shape) == 2 else "row", shape if len(shape) == 2 else [1, n], -1.0)
+                else:
+                    times = lay_out(tflat, "strided" if layout == "strided" else "flat", [n], -1.0)
+            keep = [data.copy(), None if scalar else times.copy()]
+            env["objects"][okey] = (data, times, keep)
+        lkey = core.canon([rows, base.isoformat(), text, case["via"]])
+        impl = None
+        if lkey in env["logs"]:
+            log, logkeep, impl = env["logs"][lkey]
+            relation.add("history:same-log-object")
+        else:
+            # one file name for all calls of a history: a log exported again to the same place is read again
+            path = env["tmp"] / "LaserLog_synthetic.csv"
+            gen_nwi.write_lines(path, lines, eol="\r\n" if text["eol"] == "crlf" else "\n", bom=text["bom"],
+                                final_eol=text["final_eol"])
+            via = case["via"]
+            try:
+                log = str(path) if via == "path" else Path(path) if via == "pathobj" else laser.read_nwi_laser_log(path)
+                if via == "arrayview":                         # the log as a non-contiguous view of a larger record array
+                    big = np.concatenate([log, log])
+                    big[1::2] = log[::-1]
+                    big[::2] = log
+                    log = big[::2]
+            except Exception as e:
+                log = None
+                impl = {"raises": type(e).__name__, "msg": str(e)[:200]}
+            logkeep = log.copy() if isinstance(log, np.ndarray) else None
+            if isinstance(log, np.ndarray):                    # a path stands for whatever the file holds when it is read
+                env["logs"][lkey] = (log, logkeep, impl)
+            elif index > 0:
+                relation.add("history:log-file-" + ("unchanged" if env.get("text") == lkey else "rewritten"))
+            env["text"] = lkey
+        first = min(selpat) if selpat else None            # the spot size string the import reads
+        spotstr = None if first is None else tuple(acq["patterns"][first][k] for k in ("sxu", "syu", "circular"))
+        if index > 0:
+            relation.add("history:same-spot-string" if spotstr in env.setdefault("spots", set()) else "history:other-spot-string")
+        env.setdefault("spots", set()).add(spotstr)
+
+        def restore():
+            """argument mutation is not an observation point of C08: every call gets the modelled input"""
+            for cur, old in ((data, keep[0]), (times, keep[1]), (log, logkeep)):
+                if old is not None and isinstance(cur, np.ndarray) and cur.tobytes() != old.tobytes():
+                    cur[...] = old
 
         def field(arr, nm):
             return arr if arr.dtype.names is None else arr[nm]
 
-        path = ctx.tmpdir() / "LaserLog_synthetic.csv"
-        gen_nwi.write_log(path, rows, datetime.datetime(*case["base"][:6], case["base"][6] * 1000))
-        lg = logging.getLogger("pewlib.io.laser")             # "flattening" / "multiple spot sizes" warnings: not observed
-        was_disabled, lg.disabled = lg.disabled, True
-        try:
-            via = case["via"]
-            log = str(path) if via == "path" else Path(path) if via == "pathobj" else laser.read_nwi_laser_log(path)
-            numpy_sel = opt(case, "selform") == "numpy"
+        returned = None
+        if log is not None:
+            try:
+                form = opt(case, "selform")
 
-            def seq_arg(x):
-                if isinstance(x, list):
-                    return np.array(x, dtype=int) if numpy_sel else list(x)
-                return np.int64(x) if (numpy_sel and x is not None) else x
+                def seq_arg(x):
+                    if isinstance(x, list):
+                        return (np.array(x, dtype=int) if form == "numpy" else np.array(x, dtype=np.int32) if form == "np32"
+                                else tuple(x) if form == "tuple" else list(x))
+                    if x is None:
+                        return None
+                    return (np.int64(x) if form == "numpy" else np.int32(x) if form == "np32" else np.array(x) if form == "np0d"
+                            else x)
 
-            if opt(case, "precall"):
-                # an earlier import from the same objects (another selection, another delay); its result is not looked
-                # at.  Arguments it altered are restored: the observed call gets the modelled input.
-                keep = (data.copy(), None if scalar else times.copy(), None if not isinstance(log, np.ndarray) else log.copy())
-                other = None if sel is not None else [p["seq"] for p in acq["patterns"]][:1]
-                try:
-                    laser.sync_data_nwi_laser_log(data, times, log, sequence=seq_arg(other), delay=delay + 0.0625,
-                                                  squeeze=not squeeze)
-                except Exception:
-                    pass
-                for cur, old in zip((data, times, log), keep):
-                    if old is not None and cur.tobytes() != old.tobytes():
-                        cur[...] = old
-            sync, params = laser.sync_data_nwi_laser_log(data, times, log, sequence=seq_arg(sel), delay=delay, squeeze=squeeze)
-            cells = []
-            for r in range(sync.shape[0]):
-                for c in range(sync.shape[1]):
-                    t = [core.tok(field(sync, nm)[r, c]) for nm in names]
-                    if not all(math.isnan(field(sync, nm)[r, c]) for nm in names):
-                        cells.append([r, c, t])
-            impl = {"shape": list(sync.shape), "cells": cells,
-                    "origin": [float(v).hex() for v in params["origin"]],
-                    "spot": [float(v).hex() for v in np.asarray(params["spotsize"]).ravel()],
-                    "delay": float(params["delay"]).hex()}
-        except Exception as e:  # the quantified inputs never raise
-            impl = {"raises": type(e).__name__, "msg": str(e)[:200]}
-        finally:
-            lg.disabled = was_disabled
-            ctx.cleanup()                                      # the synthetic log is not needed any more
+                dly = np.float64(delay) if opt(case, "delayform") == "np" else delay
+
+                restore()
+                if opt(case, "precall"):
+                    # an earlier import from the same objects (another selection, another delay); its result is not
+                    # looked at.  Arguments it altered are restored: the observed call gets the modelled input.
+                    other = None if sel is not None else [p["seq"] for p in acq["patterns"]][:1]
+                    try:
+                        laser.sync_data_nwi_laser_log(data, times, log, sequence=seq_arg(other), delay=dly + 0.0625,
+                                                      squeeze=not squeeze)
+                    except Exception:
+                        pass
+                    restore()
+                sync, params = laser.sync_data_nwi_laser_log(data, times, log, sequence=seq_arg(sel), delay=dly, squeeze=squeeze)
+                cells = []
+                for r in range(sync.shape[0]):
+                    for c in range(sync.shape[1]):
+                        t = [core.tok(field(sync, nm)[r, c]) for nm in names]
+                        if not all(math.isnan(field(sync, nm)[r, c]) for nm in names):
+                            cells.append([r, c, t])
+                impl = {"shape": list(sync.shape), "cells": cells,
+                        "origin": [float(v).hex() for v in params["origin"]],
+                        "spot": [float(v).hex() for v in np.asarray(params["spotsize"]).ravel()],
+                        "delay": float(params["delay"]).hex()}
+                returned = [sync, params]
+            except Exception as e:  # the quantified inputs never raise
+                impl = {"raises": type(e).__name__, "msg": str(e)[:200]}
 
         def conv(res):
             if "raises" in res:
@@ -430,13 +865,46 @@ class C08(Prop):
                 spec_ok = spec_ok and impl["shape"][0] >= spec["shape"][0] and impl["shape"][1] >= spec["shape"][1]
 
         feats = self.features(case, delay, rep)
+        feats |= date_features(case, rows, selpat, base)
+        feats |= self.nan_features(case, rep, isnan)
+        feats.add("text:" + text["eol"] + ("+bom" if text["bom"] else "") + ("" if text["final_eol"] else "+no-final-eol"))
         feats.add("layout:" + layout + ("" if len(shape) == 1 or layout in ("row", "col") else
                                         ":1xn" if shape[0] == 1 else ":kxm"))
         if scalar:
             feats.add("clock+layout:scalar+" + ("len=size" if shape[0] == n else "len<size"))
             feats.add("samples:" + ("1" if n == 1 else "2" if n == 2 else "3+"))
-        return outcome(impl, model, spec, spec_ok=spec_ok, model_ok=model_ok, undetermined=not rep["hyp"], hyp=rep["hyp"],
-                       features=feats)
+        # outside the theorems' hypotheses and not judged: no ground truth (truthHyp), or a log that leaves 1970..9999.
+        # A spot size string longer than the 16 characters the reader keeps is still "any spot size": it is judged
+        # (known finding C08-spot-size-string-over-16-characters), only the theorem does not cover it
+        undet = not rep["truth_ok"] or (not rep["text_ok"] and rep["spot_ok"])
+        if not rep["spot_ok"]:
+            feats.add("spot-string>16-characters")
+        return {"impl": impl, "model": model, "spec": spec, "spec_ok": spec_ok, "model_ok": model_ok,
+                "undetermined": undet, "hyp": rep["hyp"], "features": feats, "relation": relation, "returned": returned}
+
+    def nan_features(self, case, rep, isnan):
+        """which NaN structure the ground-truth image really has: a complete image row / column whose samples are NaN in
+        the first / a middle / the last element only (that row / column was ablated: it stays), or in all elements"""
+        f = set()
+        ne = len(isnan[0]) if isnan else 0
+        if any(any(v) and not all(v) for v in isnan):
+            f.add("nan:differs-between-elements")
+        if case.get("nan_plan"):
+            f.add("nan:plan")
+        sq = "+squeeze" if case["squeeze"] else ""
+        img = rep["spec"]["pixels"]
+        for kind, cells in [("row", r) for r in img] + [("column", list(c)) for c in zip(*img)]:
+            ks = [k for k in cells if k is not None]
+            if not ks:
+                continue
+            per = [all(isnan[k][e] for k in ks) for e in range(ne)]
+            if all(per):
+                f.add(f"nan:visited-{kind}:all-elements{sq}")
+            elif any(per) and ne > 1:
+                for e in range(ne):
+                    if per[e]:
+                        f.add(f"nan:visited-{kind}:{'first' if e == 0 else 'last' if e == ne - 1 else 'middle'}-element{sq}")
+        return f
 
     def features(self, case, delay, rep):
         acq, sel = case["acq"], case["sel"]
@@ -470,6 +938,10 @@ class C08(Prop):
         f.add("squeeze" if case["squeeze"] else "no-squeeze")
         if case["nan_mod"]:
             f.add("nan-samples")
+        if case.get("special"):
+            f.add("values:inf/-0.0/tiny/huge")
+        if unrat(acq["t0"]) > 10 ** 9:
+            f.add("signal-clock:epoch-seconds")
         f.add(f"elements:{case['nelem']}")
         f.add("via:" + case["via"])
         f.add("clock:" + opt(case, "clock"))
@@ -480,12 +952,51 @@ class C08(Prop):
             f.add("selform:" + opt(case, "selform"))
         if opt(case, "precall"):
             f.add("precall")
+        f.add("delay-type:" + opt(case, "delayform"))
+        if sum(len(pats[i]["lines"]) * pats[i]["npix"] for i in selidx) >= 400:
+            f.add("size:400+pixels")
+        if any(p["seq"] >= 5 for p in pats):
+            f.add("seq>=5")
         return f
+
+    KNOWN_LONG_SPOT = "C08-spot-size-string-over-16-characters"
+
+    def known(self, case, out):
+        """the reader keeps 16 characters of the spot size column: a longer spot size string of the pattern that is read
+        (first selected pattern of the observed call or of an earlier call of its history) loses its last digits"""
+        for step in case.get("history", []) + [case]:
+            idx = selected(step["acq"], step["sel"])
+            if idx:
+                p = step["acq"]["patterns"][idx[0]]
+                if spot_len(p["sxu"], p["syu"], p["circular"]) > 16:
+                    return self.KNOWN_LONG_SPOT
+        return None
 
     # ------------------------------------------------------------------ shrinking
     def shrink(self, case):
         acq, sel = case["acq"], case["sel"]
         selidx = selected(acq, sel)
+        hist = case.get("history", [])
+        if hist:
+            yield {k: v for k, v in copy.deepcopy(case).items() if k != "history"}
+            for h in hist:
+                yield copy.deepcopy(h)
+            if len(hist) > 1:
+                for i in range(len(hist)):
+                    yield {**copy.deepcopy(case), "history": [copy.deepcopy(h) for j, h in enumerate(hist) if j != i]}
+        for i, h in enumerate(hist):
+            for hc in self.shrink(h):
+                c = copy.deepcopy(case)
+                c["history"][i] = hc
+                yield c
+        for k in ("date", "nan_plan", "text", "special"):
+            if k in case:
+                yield {kk: v for kk, v in copy.deepcopy(case).items() if kk != k}
+        if len(case.get("nan_plan", [])) > 1:
+            for i in range(len(case["nan_plan"])):
+                c = copy.deepcopy(case)
+                del c["nan_plan"][i]
+                yield c
 
         def rebuilt(c):
             c["acq"]["skip"], c["acq"]["take"] = 0, total_samples(c["acq"])
